@@ -709,3 +709,83 @@ R.mutant("benign-lru-setitem-reuse-cell-bumped", COLL, sub(
 R.mutant("benign-lru-getitem-rename-local", COLL, sub(
     "        item = self._data[key]\n        item[2][0] = self._inc_counter()\n        return item[1]\n",
     "        entry = self._data[key]\n        entry[2][0] = self._inc_counter()\n        return entry[1]\n"), None)
+
+# ---- robustify (rob-H1): behaviour-preserving refactorings that must stay silent, and the same shapes broken
+_GET_OLD = ("        item = self._data.get(key)\n        if item is not None:\n            item[2][0] = self._inc_counter()\n"
+            "            return item[1]\n        else:\n            return default\n")
+_MS_OLD = ("        if not self._mutex.acquire(False):\n            return\n        try:\n            size_alert = bool(self.size_alert)\n"
+           "            while len(self) > self.capacity + self.capacity * self.threshold:\n                if size_alert:\n"
+           "                    size_alert = False\n                    self.size_alert(self)  # type: ignore[misc]\n"
+           "                by_counter = sorted(\n                    self._data.values(),\n                    key=operator.itemgetter(2),\n"
+           "                    reverse=True,\n                )\n                for item in by_counter[self.capacity :]:\n"
+           "                    try:\n                        del self._data[item[0]]\n                    except KeyError:\n"
+           "                        # deleted elsewhere; skip\n                        continue\n        finally:\n            self._mutex.release()\n")
+
+
+def _ms_new(acquire="        if not self._mutex.acquire(False):\n            return\n", victims="most_recent_first[self.capacity :]",
+            bound="self.size_threshold"):
+    return (acquire + "        try:\n            alert_pending = bool(self.size_alert)\n"
+            f"            while len(self) > {bound}:\n                if alert_pending:\n                    alert_pending = False\n"
+            "                    self.size_alert(self)  # type: ignore[misc]\n                self._discard_least_recent()\n"
+            "        finally:\n            self._mutex.release()\n\n    def _discard_least_recent(self) -> None:\n"
+            "        most_recent_first = sorted(\n            self._data.values(),\n            key=operator.itemgetter(2),\n            reverse=True,\n        )\n"
+            f"        for item in {victims}:\n            try:\n                del self._data[item[0]]\n            except KeyError:\n                continue\n")
+
+
+# rfH_7: early return in get(); the existing size_threshold property used; sort-and-trim extracted (still under the mutex)
+R.mutant("benign-rob-lru-get-early-return", COLL,
+         sub(_GET_OLD, "        item = self._data.get(key)\n        if item is None:\n            return default\n"
+                       "        item[2][0] = self._inc_counter()\n        return item[1]\n"), None)
+R.mutant("benign-rob-lru-manage-size-property-and-trim-helper", COLL, sub(_MS_OLD, _ms_new()), None)
+R.mutant("benign-rob-lru-manage-size-acquire-result-in-local", COLL,
+         sub(_MS_OLD, _ms_new(acquire="        acquired = self._mutex.acquire(False)\n        if not acquired:\n            return\n")), None)
+R.mutant("benign-rob-lru-manage-size-victims-in-local", COLL,
+         sub("                for item in by_counter[self.capacity :]:\n",
+             "                victims = by_counter[self.capacity :]\n                for item in victims:\n"), None)
+R.mutant("benign-rob-lru-getitem-bump-in-helper", COLL,
+         sub("        item = self._data[key]\n        item[2][0] = self._inc_counter()\n        return item[1]\n",
+             "        item = self._data[key]\n        self._touch(item)\n        return item[1]\n\n"
+             "    def _touch(self, item: Any) -> None:\n        item[2][0] = self._inc_counter()\n"), None)
+R.mutant("rob-lru-trim-helper-wrong-victims", COLL, sub(_MS_OLD, _ms_new(victims="most_recent_first[: self.capacity]")), "C54-R4")
+R.mutant("rob-lru-manage-size-bound-without-capacity", COLL, sub(_MS_OLD, _ms_new(bound="self.threshold")), "C54-R4")
+R.mutant("rob-lru-get-early-return-no-bump", COLL,
+         sub(_GET_OLD, "        item = self._data.get(key)\n        if item is None:\n            return default\n        return item[1]\n"), "C54-R4")
+R.mutant("rob-lru-getitem-helper-does-not-bump", COLL,
+         sub("        item = self._data[key]\n        item[2][0] = self._inc_counter()\n        return item[1]\n",
+             "        item = self._data[key]\n        self._touch(item)\n        return item[1]\n\n"
+             "    def _touch(self, item: Any) -> None:\n        self._inc_counter()\n"), "C54-R4")
+# rfH_8: inverted if/else, merged isinstance, guard -> early return, comprehension -> loop
+_INIT_OLD = ("        if d is not None:\n            if isinstance(d, set) or isinstance(d, dict):\n                self._list = list(d)\n"
+             "            else:\n                self._list = unique_list(d)\n            set.__init__(self, self._list)\n"
+             "        else:\n            self._list = []\n            set.__init__(self)\n")
+_INTER_OLD = ("        other_set: Set[Any] = set.intersection(self, *other)\n"
+              "        return self._from_list([a for a in self._list if a in other_set])")
+
+
+def _inter_loop(source):
+    return ("        common: Set[Any] = set.intersection(self, *other)\n        ordered: List[_T] = []\n"
+            f"        for member in {source}:\n            if member in common:\n                ordered.append(member)\n"
+            "        return self._from_list(ordered)")
+
+
+R.mutant("benign-rob-orderedset-init-inverted-merged-isinstance", CY,
+         sub(_INIT_OLD, "        if d is None:\n            self._list = []\n            set.__init__(self)\n        else:\n"
+                        "            if isinstance(d, (set, dict)):\n                self._list = list(d)\n            else:\n"
+                        "                self._list = unique_list(d)\n            set.__init__(self, self._list)\n"), None)
+R.mutant("benign-rob-orderedset-init-de-morgan", CY,
+         sub("            if isinstance(d, set) or isinstance(d, dict):\n                self._list = list(d)\n            else:\n                self._list = unique_list(d)\n",
+             "            if not isinstance(d, set) and not isinstance(d, dict):\n                self._list = unique_list(d)\n            else:\n                self._list = list(d)\n"), None)
+R.mutant("benign-rob-orderedset-discard-early-return", CY,
+         sub("        if element in self:\n            set.remove(self, element)\n            self._list.remove(element)\n",
+             "        if element not in self:\n            return\n        set.remove(self, element)\n        self._list.remove(element)\n"), None)
+R.mutant("benign-rob-orderedset-add-early-return", CY,
+         sub("    def add(self, element: _T, /) -> None:\n        if element not in self:\n            self._list.append(element)\n            set.add(self, element)\n",
+             "    def add(self, element: _T, /) -> None:\n        if element in self:\n            return\n        self._list.append(element)\n        set.add(self, element)\n"), None)
+R.mutant("benign-rob-orderedset-intersection-as-loop", CY, sub(_INTER_OLD, _inter_loop("self._list")), None)
+R.mutant("rob-orderedset-intersection-loop-over-argument", CY, sub(_INTER_OLD, _inter_loop("other[0]")), "C54-R2")
+R.mutant("rob-orderedset-add-early-return-wrong-polarity", CY,
+         sub("    def add(self, element: _T, /) -> None:\n        if element not in self:\n            self._list.append(element)\n            set.add(self, element)\n",
+             "    def add(self, element: _T, /) -> None:\n        if element not in self:\n            return\n        self._list.append(element)\n        set.add(self, element)\n"), "C54-R2")
+R.mutant("rob-orderedset-init-de-morgan-wrong-branch", CY,
+         sub("            if isinstance(d, set) or isinstance(d, dict):\n                self._list = list(d)\n            else:\n                self._list = unique_list(d)\n",
+             "            if not isinstance(d, set) and not isinstance(d, dict):\n                self._list = list(d)\n            else:\n                self._list = unique_list(d)\n"), "C54-R2")
